@@ -44,7 +44,7 @@ CAT_WEIGHT_DEFAULT = {'item': 5, 'fold': 4, 'seq': 4, 'muxseq': 3, 'window': 4, 
 TIN = {
     'map_add': A.INTLIKE, 'map_mul': A.INTLIKE, 'map_mod': A.INTLIKE, 'map_pair': A.INTLIKE, 'map_rep': A.INTLIKE,
     'map_none': A.INTLIKE, 'map_float': A.INTLIKE, 'starmap_add': ('pair',), 'filter_mod': A.INTLIKE,
-    'filter_gt': A.INTLIKE, 'filter_notnone': ('optint',), 'filter_false': '*', 'flat_map': ('list',),
+    'filter_gt': A.INTLIKE, 'filter_notnone': ('optint',), 'filter_false': '*', 'flat_map': ('list', 'pair'),
     'clip': A.INTLIKE + ('float',), 'fill_none': ('optint',), 'identity': '*', 'do_action': '*', 'assert_true': '*',
     'assert1_true': '*', 'progress': '*',
     'scan_sum': A.INTLIKE, 'scan_fsum': A.NUM, 'scan_or': A.INTLIKE, 'scan_minmax': A.INTLIKE, 'scan_list': '*',
@@ -64,7 +64,10 @@ import os
 ENV_EXCLUDE = set(filter(None, os.environ.get('VERIF_EXCLUDE_KINDS', '').split(',')))
 
 
-def candidates(t, opts, depth_left, no_ct):
+INEXACT = {'variance', 'stddev', 'fvariance', 'fstddev'}     # the model uses another (exact) algorithm for these
+
+
+def candidates(t, opts, depth_left, no_ct, tainted=False):
     out = []
     for cat, names in CATS.items():
         if cat in ('muxseq', 'window') and not opts.mux:
@@ -85,6 +88,8 @@ def candidates(t, opts, depth_left, no_ct):
                 continue
             if t == 'float' and not opts.exact and n in DISCONT_ON_FLOAT:
                 continue
+            if tainted and not opts.exact and n == 'duc' and not A.isint(t):
+                continue        # containers (tuples, lists) may carry inexactly-modelled floats: no equality tests on them
             k = A.KINDS[n]
             if opts.stateless and k.stateful:
                 continue
@@ -94,7 +99,7 @@ def candidates(t, opts, depth_left, no_ct):
     return out
 
 
-def draw_params(draw, name, t, opts, depth_left, no_ct):
+def draw_params(draw, name, t, opts, depth_left, no_ct, tainted=False):
     """-> node (list) ; reduce flags obey no_ct."""
     red = (lambda: False) if no_ct else (lambda: draw(st.booleans()))
     if name in ('map_add',):
@@ -145,23 +150,23 @@ def draw_params(draw, name, t, opts, depth_left, no_ct):
     if name == 'start_with':
         return [name, draw(st.lists(ints(-1, 9), max_size=3))]
     if name == 'group_by':
-        inner = draw(chain(t, opts, depth_left - 1, no_ct=False))
+        inner = draw(chain(t, opts, depth_left - 1, no_ct=False, tainted=tainted))
         return [name, draw(ints(2, 3)), inner]
     if name == 'roll':
         w = draw(ints(1, 5))
         s = draw(ints(1, 5))
-        return [name, w, s, draw(chain(t, opts, depth_left - 1, no_ct=False))]
+        return [name, w, s, draw(chain(t, opts, depth_left - 1, no_ct=False, tainted=tainted))]
     if name == 'split':
-        return [name, draw(st.sampled_from(['div', 'mod'])), draw(ints(2, 3)), draw(chain(t, opts, depth_left - 1, no_ct=False))]
+        return [name, draw(st.sampled_from(['div', 'mod'])), draw(ints(2, 3)), draw(chain(t, opts, depth_left - 1, no_ct=False, tainted=tainted))]
     if name == 'time_split':
         active = draw(st.sampled_from([None, 1, 3, 5, 8]))
         inactive = draw(st.sampled_from([None, 1, 2, 3]))
         closing = draw(st.one_of(st.none(), st.tuples(ints(2, 4), ints(0, 1)).map(list)))
-        return [name, active, inactive, closing, draw(st.booleans()), draw(chain(t, opts, depth_left - 1, no_ct=False))]
+        return [name, active, inactive, closing, draw(st.booleans()), draw(chain(t, opts, depth_left - 1, no_ct=False, tainted=tainted))]
     if name == 'tee':
         join = draw(st.sampled_from(['zip', 'merge', 'combine_latest']))
         nb = draw(ints(2, opts.branch_max))
-        branches = [draw(chain(t, opts, depth_left - 1, no_ct=no_ct, in_tee=True, max_len=3)) for _ in range(nb)]
+        branches = [draw(chain(t, opts, depth_left - 1, no_ct=no_ct, in_tee=True, max_len=3, tainted=tainted)) for _ in range(nb)]
         return [name, join, branches]
     return [name]
 
@@ -171,12 +176,12 @@ def has_early(pipeline):
 
 
 @st.composite
-def chain(draw, t, opts, depth_left, no_ct=False, in_tee=False, max_len=None, min_len=0):
+def chain(draw, t, opts, depth_left, no_ct=False, in_tee=False, max_len=None, min_len=0, tainted=False):
     """A type-correct pipeline for items of type t."""
     n = draw(ints(min_len, max_len if max_len is not None else opts.max_len))
     out = []
     for _ in range(n):
-        cands = candidates(t, opts, depth_left, no_ct)
+        cands = candidates(t, opts, depth_left, no_ct, tainted)
         if not cands:
             break
         cats = sorted({c for c, _ in cands})
@@ -186,9 +191,11 @@ def chain(draw, t, opts, depth_left, no_ct=False, in_tee=False, max_len=None, mi
         cat = draw(st.sampled_from(weights))
         names = [k for c, k in cands if c == cat]
         name = draw(st.sampled_from(names))
+        if t == 'mono' and any(k == 'time_split' for _, k in cands) and draw(ints(0, 2)) == 0:
+            name = 'time_split'       # only reachable on non-decreasing timestamps: keep it frequent there
         if name in RARE and len(names) > 1 and draw(ints(0, 3)) != 0:
             name = draw(st.sampled_from([k for k in names if k not in RARE] or names))
-        node = draw_params(draw, name, t, opts, depth_left, no_ct)
+        node = draw_params(draw, name, t, opts, depth_left, no_ct, tainted)
         t2 = A.KINDS[name].accept(t, node)
         if t2 is None:
             continue
@@ -196,6 +203,8 @@ def chain(draw, t, opts, depth_left, no_ct=False, in_tee=False, max_len=None, mi
             continue
         out.append(node)
         t = t2
+        if any(n[0] in INEXACT for n in A.walk([node])):
+            tainted = True
         if opts.tee_precondition and in_tee and (A.KINDS[name].early or (name == 'tee' and any(has_early(b) for b in node[2]))):
             no_ct = True
     return out
@@ -246,3 +255,9 @@ def keyed_items(draw, max_keys=5, max_size=16, mono=False):
     else:
         vals = draw(st.lists(value_of(mono or 'int'), min_size=len(keys), max_size=len(keys)))
     return [[k, v] for k, v in zip(keys, vals)]
+
+
+def weighted_text(chars, max_size=10):
+    """Strings whose characters come from the strategy `chars` with ITS weighting.  (st.text(alphabet=one_of(...)) merges
+    the alternatives into one code-point set, so hand-picked special characters would almost never be drawn.)"""
+    return st.lists(chars, max_size=max_size).map(''.join)
